@@ -65,6 +65,14 @@ const (
 )
 
 func checkID(id, kind string, sigil byte) (err error) {
+	if err = checkIDFormat(id, kind, sigil); err != nil {
+		return
+	}
+	return checkIDLength(id, kind)
+}
+
+// checkIDFormat checks that an ID has a domain part and starts with its sigil.
+func checkIDFormat(id, kind string, sigil byte) (err error) {
 	if _, err = domainFromID(id); err != nil {
 		return
 	}
@@ -73,9 +81,8 @@ func checkID(id, kind string, sigil byte) (err error) {
 			"gomatrixserverlib: invalid %s ID, wanted first byte to be '%c' got '%c'",
 			kind, sigil, id[0],
 		)
-		return
 	}
-	return checkIDLength(id, kind)
+	return
 }
 
 // checkIDLength enforces the ID length limits: more than maxIDLength code points is
